@@ -71,6 +71,19 @@ Proof. rewrite nth_error_app2 by lia. now rewrite Nat.sub_diag. Qed.
 Lemma nth_error_app_old {A} (l r : list A) i x : nth_error l i = Some x -> nth_error (l ++ r) i = Some x.
 Proof. intros H. rewrite nth_error_app1; [exact H | eapply nth_error_nth_len; eauto]. Qed.
 
+Lemma existsb_filter_false {A} (f p : A -> bool) l :
+  (forall z, In z l -> p z = true -> f z = false) -> existsb f (filter p l) = false.
+Proof.
+  intros H. apply existsb_false_intro. intros z Hz. apply filter_In in Hz as [Hz Hp]. auto.
+Qed.
+
+Lemma nth_error_map_inv {A B} (f : A -> B) l j b : nth_error (map f l) j = Some b -> exists a, nth_error l j = Some a /\ b = f a.
+Proof.
+  revert j. induction l as [|h t IH]; intros [|j] H; try discriminate; cbn in H.
+  - inversion H. exists h. auto.
+  - apply IH in H as [a [H1 H2]]. exists a. auto.
+Qed.
+
 (* ------------------------------------------------------------------ observations as pairs *)
 Definition rcode (r : res) : N * N := match r with RVal v => (3, v) | RCanceled => (4, 0) | RErr e => (5, e) end%N.
 Definition ccode (x : caller) : N * N :=
